@@ -39,7 +39,7 @@ from fedjax.models import shakespeare as m_shk
 from fedjax.models import stackoverflow as m_so
 from fedjax.training import tasks
 
-from vf.core import Check, Violation, require
+from vf.core import Check, require
 
 PROPERTY_ID = 'C20'
 LEVEL = 'exploration'
@@ -47,12 +47,14 @@ RULE = (
     'Raw examples are generated in the documented raw format and fed to the '
     'packaged preprocessors directly. Shakespeare: 0-6 snippets over '
     'in-vocabulary bytes, out-of-vocabulary bytes (printable and >=0x80/NUL) '
-    'and empty snippets, L in 2..12 (thorough ..80), last snippet resized so '
-    'that (J-1) mod L hits {0,1,L-1} in half of the cases. StackOverflow: '
+    'and empty snippets, L in 2..12 (thorough 2..40 and 80), last snippet '
+    'resized so that (J-1) mod L hits {0,1,L-1} in half of the cases, direct '
+    'call or through FederatedData.preprocess_client as load_data does. '
+    'StackOverflow: '
     'explicit vocabularies of 3, 7 and 10000 words, 1 or 3 OOV buckets, '
     'sentences of vocabulary / OOV / non-ASCII words, irregular spacing, '
-    'max_length 1..6 (thorough ..14) around the sentence length. CIFAR-100: 1-3 uint8 images '
-    'per batch from recipes {tiled random bytes, coordinate pattern, low '
+    'max_length 1..6 (thorough ..14) around the sentence length. CIFAR-100: '
+    '1-3 uint8 images per batch from recipes {tiled random bytes, coordinate pattern, low '
     'contrast (2-3 adjacent values), constant, few deviating pixels incl. one '
     'pixel off by one}, crop sizes 1..32 biased to {1,2,23,24,31,32}; the '
     'global numpy RNG used by the training crops is seeded from the case. '
@@ -1471,7 +1473,7 @@ CHECKS = [
               'every other byte to OOV = VOCAB_SIZE-1; reserved ids distinct'),
     Check(name='stackoverflow_tokenizer', run=run_so_tokenizer,
           strategy=so_tokenizer_strategy, labels=so_labels, nontrivial=so_nontrivial,
-          budget={'quick': 800, 'thorough': 12000}, time_share=3.0,
+          budget={'quick': 800, 'thorough': 12000}, time_share=4.0,
           doc='preprocess_client + StackoverflowTokenizer vs a pure-python '
               'tokenizer: BOS/EOS, shift, truncation / padding to max_length, '
               'ids = 3 + vocabulary index, OOV buckets after the vocabulary'),
@@ -1495,7 +1497,7 @@ CHECKS = [
     Check(name='lm_metrics_agreement', run=run_lm_agreement,
           strategy=lm_agreement_strategy, labels=lm_agreement_labels,
           nontrivial=lm_agreement_nontrivial,
-          budget={'quick': 400, 'thorough': 6000}, time_share=4.5,
+          budget={'quick': 400, 'thorough': 6000}, time_share=6.0,
           doc='eval_metrics and train_loss of the packaged Shakespeare / '
               'StackOverflow models on the dataset output with generated logits vs '
               'numpy references built from the DATASET ids (PAD/BOS/EOS/OOV, size)'),
